@@ -36,7 +36,7 @@ type C09Case struct {
 }
 
 // c09Envs are the back-end selections the three workers of a case share.
-var c09Envs = [][]string{nil, {"SONIC_USE_OPTDEC=1"}, {"SONIC_USE_OPTDEC=1", "SONIC_USE_FASTMAP=1"}, {"SONIC_ENCODER_USE_VM=1"}}
+var c09Envs = [][]string{nil, {"SONIC_USE_OPTDEC=1"}, {"SONIC_USE_OPTDEC=1", "SONIC_USE_FASTMAP=1"}, {"SONIC_ENCODER_USE_VM=1"}, {"GOGC=off"}, {"GOGC=off", "SONIC_USE_OPTDEC=1"}}
 
 func init() { register("C09", func() Case { return &C09Case{} }) }
 
@@ -84,7 +84,7 @@ func drawC09(t *rapid.T) Case {
 			}
 		}
 		if cl.Op == "hostile" {
-			cl.N = rapid.IntRange(1, 63).Draw(t, "hostilemask")
+			cl.N = rapid.IntRange(1, 127).Draw(t, "hostilemask")
 		}
 		if cl.Op == "filler" {
 			cl.N = []int{10, 100, 500, 2100}[rapid.IntRange(0, 3).Draw(t, "fillern")]
@@ -104,7 +104,7 @@ func drawC09(t *rapid.T) Case {
 	for i, n := 0, rapid.IntRange(0, 5).Draw(t, "nb"); i < n; i++ {
 		c.PrelB = append(c.PrelB, call(false))
 	}
-	c.Env = []int{0, 0, 0, 1, 1, 2, 3}[rapid.IntRange(0, 6).Draw(t, "env")]
+	c.Env = []int{0, 0, 0, 1, 1, 2, 3, 4, 4, 5}[rapid.IntRange(0, 9).Draw(t, "env")]
 	return c
 }
 
@@ -225,6 +225,26 @@ func (c *C09Case) c09Exec(cl C09Call, tys []reflect.Type, vals []reflect.Value) 
 			sonic.UnmarshalString(`3.4028236e38`, &f)
 			var u uint8
 			sonic.UnmarshalString(`256`, &u)
+		}
+		if cl.N&64 != 0 {
+			// a burst of rejected documents (no collection in between is likely: they allocate little):
+			// whatever a failed call leaves behind in pooled state adds up
+			var typed struct {
+				Items []struct {
+					Tags []string                       `json:"tags"`
+					Attr map[string][]int               `json:"attr"`
+					Sub  map[string]struct{ V [][]int } `json:"sub"`
+				} `json:"items"`
+			}
+			var deep [][][][][]int
+			var mm map[string]map[string][]map[string]int
+			for i := 0; i < 900; i++ {
+				sonic.Unmarshal([]byte(`{"items":[{"tags":["a","b"],"attr":{"k":[1,2`), &typed)
+				sonic.Unmarshal([]byte(`{"items":[{"sub":{"x":{"V":[[1,2],[3,`), &typed)
+				sonic.Unmarshal([]byte(`[[[[[1,2],[3]],[[`), &deep)
+				sonic.Unmarshal([]byte(`{"a":{"b":[{"c":1},{"d":`), &mm)
+				sonic.ConfigStd.Unmarshal([]byte(`{"items":[{"tags":["a",tru`), &typed)
+			}
 		}
 		return "hostile ok"
 	case "filler":
